@@ -57,6 +57,11 @@ def plan(tier, seed):
         chunks = max(1, min(32, n // 1500))
         for c in range(chunks):
             jobs.append(("asm3", sh, c, chunks, 4 * n // chunks))
+    for sh in [(1, 1), (1, 2), (1, 3), (2, 2)]:
+        n = 10 ** (sh[0] * sh[1])
+        chunks = max(1, min(16, n // 1500))
+        for c in range(chunks):
+            jobs.append(("asm1", sh, c, chunks, 3 * n // chunks))
     for N in ((6, 9) if tier == "quick" else range(5, 12)):
         for c in range(16):
             jobs.append(("multiset", N, c, 16, 3000 * N))
@@ -66,7 +71,7 @@ def plan(tier, seed):
 
 
 def run_job(job):
-    return {"call": job_call, "asm2": job_asm2, "asm3": job_asm3, "ped": job_ped, "multiset": job_multiset}[job[0]](job)
+    return {"call": job_call, "asm1": job_asm1, "asm2": job_asm2, "asm3": job_asm3, "ped": job_ped, "multiset": job_multiset}[job[0]](job)
 
 
 # --------------------------------------------------------------------------- reference functionals
@@ -296,6 +301,24 @@ def job_asm2(job):
         check_asm_trace(r, payload, haps, ch, P, "assemble|P=2", [arr])
         if not r.samples and chains == 2:
             r.sample({"assemble_trace_haplotype_indices": [list(map(list, x)) for x in ch]})
+    return r
+
+
+def job_asm1(job):
+    """loci with a single SNV (trace arrays with one column): the canonical sort of each stored genotype must still happen"""
+    _, (chains, steps), chunk, nchunks, _ = job
+    r = Result()
+    payload = {"kind": "job", "job": job}
+    haps = [(0,), (1,), (2,)]
+    for P in (2, 3):
+        gens = list(itertools.product(range(3), repeat=P)) if P == 2 else ref.multisets(range(3), P)
+        for ti, tr in enumerate(itertools.product(gens, repeat=chains * steps)):
+            if ti % nchunks != chunk:
+                continue
+            ch = [tr[c * steps:(c + 1) * steps] for c in range(chains)]
+            arr = np.array([[haps[a] for a in g] for g in tr], np.int8).reshape(chains, steps, P, 1)
+            variants = [arr] if P == 2 else [arr, arr[:, :, ::-1].copy(), np.roll(arr, 1, axis=2)]
+            check_asm_trace(r, payload, haps, ch, P, "assemble|P=%d" % P, variants)  # (single-SNV haplotypes)
     return r
 
 
